@@ -290,6 +290,57 @@ def extract(repo):
         raise ValueError("ALGargs_out: comparison of previoustype with v->type not found")
     merge_var = bool(re.search(r"previousVAR\s*!=\s*v->flags\.var", ab))
 
+    # ---- remark sites of exppp: a `--` remark must be printed raw and the line must end (raw "\n") before anything else is printed
+    import glob as _glob
+    remark_sites = []
+    for cf in sorted(_glob.glob(os.path.join(repo, "src/exppp/*.c"))):
+        base = os.path.basename(cf)
+        if base == "exppp-main.c":
+            continue
+        ctext = _strip_c_comments(open(cf).read())
+        for fm in re.finditer(r"^(?:static\s+)?(?:const\s+)?[A-Za-z_][\w\s\*]*?\b(\w+)\s*\([^;{)]*\)\s*\{", ctext, re.M):
+            try:
+                fb = _body(ctext[fm.start():], r"\{")
+            except Exception:
+                continue
+            for cm in re.finditer(r'\b(raw|wrap)\(\s*"((?:[^"\\]|\\.)*)"', fb):
+                fmt = cm.group(2)
+                if "--" not in fmt:
+                    continue
+                closed = "\\n" in fmt
+                if not closed:
+                    rest = fb[cm.end():]
+                    rest = rest[rest.index(";") + 1:] if ";" in rest else ""
+                    # statements that follow, until a raw call that prints a newline
+                    ok_chain = False
+                    while True:
+                        mm = re.match(r'[\s{}]*(raw|wrap|[A-Za-z_]\w*)\s*\(', rest)
+                        if not mm:
+                            break
+                        if mm.group(1) != "raw":
+                            break
+                        sm = re.match(r'[\s{}]*raw\(\s*"((?:[^"\\]|\\.)*)"[^;]*;', rest)
+                        if not sm:
+                            break
+                        if "\\n" in sm.group(1):
+                            ok_chain = True
+                            break
+                        rest = rest[sm.end():]
+                    closed = ok_chain
+                remark_sites.append((f"{base}:{fm.group(1)}", cm.group(1), closed))
+    if not remark_sites:
+        raise ValueError("no remark site found in src/exppp (tail_comment's raw( \" -- %s\" ) expected)")
+    # ---- LOCAL block: the width of the name column is the longest name (and the block is skipped only when it is 0)
+    ps = _strip_c_comments(open(os.path.join(repo, "src/exppp/pretty_scope.c")).read())
+    lb = _body(ps, r"void\s+SCOPElocals_out\s*\([^)]*\)\s*\{")
+    if not re.search(r"if\s*\(\s*!\s*max_indent\s*\)\s*\{\s*return\s*;", lb):
+        raise ValueError("SCOPElocals_out: `if( !max_indent ) return;` not found")
+    head = lb[:re.search(r"if\s*\(\s*!\s*max_indent\s*\)", lb).start()]
+    assigns = re.findall(r"max_indent\s*=\s*([^;]+);", head)
+    locals_plain = (len(assigns) == 2 and assigns[0].strip() == "0"
+                    and re.sub(r"\s+", "", assigns[1]) == "strlen(v->name->symbol.name)"
+                    and bool(re.search(r"if\s*\(\s*strlen\(\s*v->name->symbol\.name\s*\)\s*>\s*max_indent\s*\)", head)))
+
     L = []
     L.append("-- GENERATED by tools/extract.d/expprec.py from src/express/expparse.y (+ generated/expparse.c), src/express/expr.c,")
     L.append("-- src/exppp/pretty_expr.c, pretty_expr.h, pretty_where.c, exppp.c")
@@ -329,6 +380,10 @@ def extract(repo):
     L.append("def precisionKinds : List String := " + _llist([_lstr(k) for k in prec_kinds]))
     L.append("/-- `ALGargs_out` starts a new parameter group when the VAR flag changes (not only when the type object changes) -/")
     L.append(f"def argsMergeChecksVar : Bool := {'true' if merge_var else 'false'}")
+    L.append("/-- every place where exppp prints a `--` remark: (file:function, call, the remark is followed only by raw calls up to a raw newline) -/")
+    L.append("def remarkSites : List (String × String × Bool) := " + _llist([f"({_lstr(a)}, {_lstr(b)}, {'true' if c else 'false'})" for a, b, c in remark_sites]))
+    L.append("/-- `SCOPElocals_out` sizes the name column by the longest local name (so `if( !max_indent ) return;` means: no locals) -/")
+    L.append(f"def localsWidthIsNameLength : Bool := {'true' if locals_plain else 'false'}")
     L.append(f"def nestingIndent : Nat := {nesting}")
     L.append(f"def continuationIndent : Nat := {cont}")
     L.append(f"def defaultLineLength : Nat := {ll}")
